@@ -1034,3 +1034,261 @@ Lemma happy_path :
   snd (step (run happy_w0 (firstn 11 happy_ops)) (RNode 0 None)) = ([EProvDelete PNotFound; ERmNodeFin 0 true], ROk) /\
   snd (step (run happy_w0 (firstn 12 happy_ops)) (RClaim None)) = ([EProvDelete PNotFound; ERmClaimFin true], ROk).
 Proof. vm_compute. repeat split; reflexivity. Qed.
+
+(* ------------------------------------------------------------------ nothing else removes the finalizers *)
+
+Definition node_has_fin (i : Z) (w : world) : bool :=
+  match get_node i (w_nodes w) with Some n => n_fin n | None => false end.
+Definition claim_has_fin (w : world) : bool :=
+  match w_claim w with Some c => c_fin c | None => false end.
+
+Lemma get_set_node_other : forall i n' ns, n_id n' <> i -> get_node i (set_node n' ns) = get_node i ns.
+Proof.
+  intros i n' ns H. unfold get_node, set_node. induction ns as [|m ns IH]; simpl; [reflexivity|].
+  destruct (n_id m =? n_id n') eqn:E.
+  - apply Z.eqb_eq in E. assert (X : (n_id n' =? i) = false) by (apply Z.eqb_neq; exact H).
+    rewrite X. rewrite E. rewrite X. exact IH.
+  - destruct (n_id m =? i); [reflexivity|exact IH].
+Qed.
+
+Lemma get_del_node_other : forall i j ns, j <> i -> get_node i (del_node j ns) = get_node i ns.
+Proof.
+  intros i j ns H. unfold get_node, del_node. induction ns as [|m ns IH]; simpl; [reflexivity|].
+  destruct (n_id m =? j) eqn:E; simpl.
+  - apply Z.eqb_eq in E. assert (X : (n_id m =? i) = false) by (apply Z.eqb_neq; congruence). rewrite X. exact IH.
+  - destruct (n_id m =? i); [reflexivity|exact IH].
+Qed.
+
+(* an id-preserving update of node [j] that keeps the finalizer of a node that has it *)
+Lemma upd_node_fin : forall i j g w,
+  (forall n n', g n = Some n' -> n_id n' = n_id n) ->
+  (forall n, n_fin n = true -> exists n', g n = Some n' /\ n_fin n' = true) ->
+  node_has_fin i w = true -> node_has_fin i (upd_node j g w) = true.
+Proof.
+  intros i j g w Hid Hg H. unfold upd_node. destruct (get_node j (w_nodes w)) as [n|] eqn:Gj; [|exact H].
+  pose proof (get_node_id _ _ _ Gj) as Hj.
+  destruct (Z.eq_dec j i) as [->|Hne].
+  - unfold node_has_fin in H. rewrite Gj in H. destruct (Hg n H) as (n' & E & Hf). rewrite E.
+    unfold node_has_fin, upd_nodes. simpl. rewrite (get_set_node i _ n n' Gj) by (rewrite (Hid _ _ E); exact Hj). exact Hf.
+  - destruct (g n) as [n'|] eqn:E; unfold node_has_fin, upd_nodes in *; simpl.
+    + rewrite get_set_node_other; [exact H|]. rewrite (Hid _ _ E). congruence.
+    + rewrite get_del_node_other; [exact H|exact Hne].
+Qed.
+
+Definition nfin_safe (i : Z) (e : eff) : bool :=
+  match e with ERmNodeFin j true => negb (j =? i) | _ => true end.
+
+Lemma apply_eff_node_fin : forall i e w, nfin_safe i e = true -> node_has_fin i w = true ->
+  node_has_fin i (apply_eff w e) = true.
+Proof.
+  intros i e w Hs H.
+  assert (Hc : forall g, node_has_fin i (upd_claim g w) = node_has_fin i w) by (intros g; reflexivity).
+  destruct e as [ok|a|j ok|a|ok d v t|j ok|ok t|j ok|ok|ok|ok|ok]; simpl in *;
+    try destruct ok; try destruct a; simpl in *; try exact H; try (rewrite Hc; exact H).
+  - apply upd_node_fin; [intros n n' E; inversion E; reflexivity | intros n Hf; eexists; split; [reflexivity|exact Hf] | exact H].
+  - (* the finalizer of another node *)
+    rewrite negb_true_iff in Hs. apply Z.eqb_neq in Hs.
+    unfold upd_node. destruct (get_node j (w_nodes w)) as [n|] eqn:Gj; [|exact H].
+    pose proof (get_node_id _ _ _ Gj) as Hj. unfold node_has_fin, upd_nodes in *.
+    destruct (n_del n); simpl.
+    + rewrite get_del_node_other; [exact H|exact Hs].
+    + rewrite get_set_node_other; [exact H|simpl; congruence].
+  - apply upd_node_fin; [| | exact H].
+    + intros n n' E. unfold api_delete_node in E. destruct (n_del n); [inversion E; reflexivity|].
+      destruct (n_fin n); inversion E; reflexivity.
+    + intros n Hf. unfold api_delete_node. destruct (n_del n); [eexists; split; [reflexivity|exact Hf]|].
+      rewrite Hf. eexists; split; reflexivity.
+Qed.
+
+Lemma apply_effs_node_fin : forall i es w, forallb (nfin_safe i) es = true -> node_has_fin i w = true ->
+  node_has_fin i (apply_effs w es) = true.
+Proof.
+  intros i es. induction es as [|e es IH]; intros w Hs H; simpl in *; [exact H|].
+  apply andb_prop in Hs. destruct Hs as [H1 H2]. unfold apply_effs in *. simpl.
+  apply IH; [exact H2|]. apply apply_eff_node_fin; assumption.
+Qed.
+
+Lemma not_nfin_safe_in : forall i es, forallb (nfin_safe i) es = false -> In (ERmNodeFin i true) es.
+Proof.
+  intros i es. induction es as [|e es IH]; simpl; [discriminate|]. intros H. apply andb_false_iff in H. destruct H as [H|H].
+  - left. destruct e as [ok|a|j ok|a|ok d v t|j ok|ok t|j ok|ok|ok|ok|ok]; try destruct ok; simpl in H; try discriminate.
+    rewrite negb_false_iff in H. apply Z.eqb_eq in H. subst. reflexivity.
+  - right. apply IH. exact H.
+Qed.
+
+Definition no_rmnode (e : eff) : bool := match e with ERmNodeFin _ true => false | _ => true end.
+
+Lemma no_rmnode_nfin_safe : forall i es, forallb no_rmnode es = true -> forallb (nfin_safe i) es = true.
+Proof.
+  intros i es. induction es as [|e es IH]; simpl; auto. intros H. apply andb_prop in H. destruct H as [H1 H2].
+  rewrite (IH H2), andb_true_r. destruct e as [ok|a|j ok|a|ok d v t|j ok|ok t|j ok|ok|ok|ok|ok]; try destruct ok; simpl in *; auto; discriminate.
+Qed.
+
+Lemma delete_nodes_no_rmnode : forall f ns, forallb no_rmnode (fst (delete_nodes f ns)) = true.
+Proof.
+  intros f ns. induction ns as [|n ns IH]; simpl; [reflexivity|].
+  destruct (n_del n); [exact IH|].
+  destruct (fails f (SDelNode (n_id n))) as [[| |]|]; try reflexivity;
+    destruct (delete_nodes f ns) as [e b]; simpl in *; exact IH.
+Qed.
+
+Lemma claim_finalize_no_rmnode : forall w c t f, forallb no_rmnode (fst (claim_finalize w c t f)) = true.
+Proof.
+  intros w c t f. unfold claim_finalize. cbv zeta. destruct (negb (c_fin c)); [reflexivity|].
+  assert (HA : forall X : list eff * option res,
+    X = (match c_annot c, c_tgp c with
+         | ANone, Some g =>
+             match fails f SAnnot with
+             | Some KNotFound => ([EAnnot false (t + g)], None)
+             | Some KConflict => ([EAnnot false (t + g)], Some RRequeue)
+             | Some KServer => ([EAnnot false (t + g)], Some RErr)
+             | None => ([EAnnot true (t + g)], None)
+             end
+         | _, _ => ([], None)
+         end) -> forallb no_rmnode (fst X) = true).
+  { intros X ->. destruct (c_annot c); try reflexivity. destruct (c_tgp c); try reflexivity.
+    destruct (fails f SAnnot) as [[| |]|]; reflexivity. }
+  match goal with |- context[let '(e1, stop1) := ?X in _] => specialize (HA X eq_refl); destruct X as [e1 stop1] end.
+  simpl in HA. destruct stop1; [exact HA|].
+  assert (HB : forall X : list eff * option res,
+    X = (if c_registered c
+         then match fails f SListNodes with
+              | Some _ => ([], Some RErr)
+              | None =>
+                  let ns := claim_nodes w c in
+                  let '(e, hard) := delete_nodes f ns in
+                  if hard then (e, Some RErr) else match ns with [] => (e, None) | _ => (e, Some ROk) end
+              end
+         else ([], None)) -> forallb no_rmnode (fst X) = true).
+  { intros X ->. destruct (c_registered c); [|reflexivity]. destruct (fails f SListNodes); [reflexivity|]. cbv zeta.
+    pose proof (delete_nodes_no_rmnode f (claim_nodes w c)) as Hd.
+    destruct (delete_nodes f (claim_nodes w c)) as [e hard]. simpl in Hd.
+    destruct hard; [exact Hd|]. destruct (claim_nodes w c); exact Hd. }
+  match goal with |- context[let '(e2, stop2) := ?X in _] => specialize (HB X eq_refl); destruct X as [e2 stop2] end.
+  simpl in HB. destruct stop2; [simpl; rewrite forallb_app, HA, HB; reflexivity|].
+  pose proof (fun X => proj1 (forallb_forall no_rmnode (fst (rm_claim_fin f))) X) as _.
+  assert (HR : forallb no_rmnode (fst (rm_claim_fin f)) = true).
+  { unfold rm_claim_fin. destruct (fails f SRmClaimFin) as [[| |]|]; reflexivity. }
+  destruct (c_pid c).
+  - destruct (fails f SProvDelete); [simpl; rewrite !forallb_app, HA, HB; reflexivity|].
+    assert (HE : forall X : list eff * option res,
+      X = (if c_term c then ([], None)
+           else match fails f SPatchStatus with
+                | Some KNotFound => ([EStatus false (c_drained c) (c_vol c) true], Some ROk)
+                | Some KConflict => ([EStatus false (c_drained c) (c_vol c) true], Some RRequeue)
+                | Some KServer => ([EStatus false (c_drained c) (c_vol c) true], Some RErr)
+                | None => ([EStatus true (c_drained c) (c_vol c) true], None)
+                end) -> forallb no_rmnode (fst X) = true).
+    { intros X ->. destruct (c_term c); [reflexivity|]. destruct (fails f SPatchStatus) as [[| |]|]; reflexivity. }
+    match goal with |- context[let '(e3, stop3) := ?X in _] => specialize (HE X eq_refl); destruct X as [e3 stop3] end.
+    simpl in HE.
+    assert (HP : forallb no_rmnode [EProvDelete (fst (prov_delete (w_inst w)))] = true) by (destruct (w_inst w); reflexivity).
+    destruct stop3; [simpl fst; rewrite !forallb_app, HA, HB, HP, HE; reflexivity|].
+    destruct (fst (prov_delete (w_inst w))) eqn:Ep; try (simpl fst; rewrite !forallb_app, HA, HB, HE; reflexivity).
+    destruct (rm_claim_fin f) as [e r]. simpl in *. rewrite !forallb_app, HA, HB, HE, HR. reflexivity.
+  - destruct (rm_claim_fin f) as [e r]. simpl in *. rewrite !forallb_app, HA, HB, HR. reflexivity.
+Qed.
+
+Lemma claim_launch_no_rmnode : forall w c f, forallb no_rmnode (fst (fst (claim_launch w c f))) = true.
+Proof.
+  intros w c f. unfold claim_launch. cbv zeta.
+  destruct (c_fin c); [|destruct (fails f SAddFin) as [[| |]|]]; simpl; try reflexivity;
+    (destruct (c_pid c); [reflexivity|]);
+    (destruct (w_cache w); simpl; [|destruct (fails f SProvCreate); simpl; [reflexivity|]]);
+    destruct (fails f SPatchMeta) as [[| |]|]; destruct (fails f SPatchStatusL) as [[| |]|]; reflexivity.
+Qed.
+
+Lemma claim_reconcile_no_rmnode : forall w f, forallb no_rmnode (fst (fst (claim_reconcile w f))) = true.
+Proof.
+  intros w f. unfold claim_reconcile. destruct (w_claim w) as [c|]; [|reflexivity].
+  destruct (negb (c_managed c)); [reflexivity|]. destruct (c_del c) as [t|].
+  - pose proof (claim_finalize_no_rmnode w c t f) as H. destruct (claim_finalize w c t f) as [es r]. exact H.
+  - apply claim_launch_no_rmnode.
+Qed.
+
+Lemma env_node_fin : forall i w o, is_env o = true -> node_has_fin i w = true -> node_has_fin i (env_step w o) = true.
+Proof.
+  intros i w o He H.
+  assert (Hc : forall g, node_has_fin i (upd_claim g w) = node_has_fin i w) by (intros g; reflexivity).
+  destruct o; simpl in He; try discriminate; simpl; try exact H; try (rewrite Hc; exact H).
+  - destruct (existsb _ (w_pods w)); exact H.
+  - apply upd_node_fin; [intros n n' E; inversion E; reflexivity | intros n Hf; eexists; split; [reflexivity|exact Hf] | exact H].
+  - apply upd_node_fin; [| | exact H].
+    + intros n n' E. unfold api_delete_node in E. destruct (n_del n); [inversion E; reflexivity|].
+      destruct (n_fin n); inversion E; reflexivity.
+    + intros n Hf. unfold api_delete_node. destruct (n_del n); [eexists; split; [reflexivity|exact Hf]|].
+      rewrite Hf. eexists; split; reflexivity.
+Qed.
+
+(* Only a reconcile of node [i] that writes the removal takes the termination finalizer off node [i]:
+   no environment event, no reconcile of another node and no lifecycle reconcile does. *)
+Lemma node_finalizer_only_by_reconcile_l : forall w o i,
+  node_has_fin i w = true -> node_has_fin i (fst (step w o)) = false ->
+  exists f, o = RNode i f /\ In (ERmNodeFin i true) (fst (snd (step w o))).
+Proof.
+  intros w o i H H'. unfold step in *. destruct (is_env o) eqn:He.
+  - simpl in H'. rewrite (env_node_fin i w o He H) in H'. discriminate.
+  - destruct o as [j f|f| | | | | | | | | | | |]; simpl in He; try discriminate; simpl in *.
+    + destruct (node_reconcile w j f) as [es r] eqn:E. simpl in *.
+      destruct (forallb (nfin_safe i) es) eqn:Hs.
+      * change (node_has_fin i (apply_effs w es) = false) in H'.
+        rewrite (apply_effs_node_fin i es w Hs H) in H'. discriminate.
+      * apply not_nfin_safe_in in Hs. destruct (node_reconcile_rm _ _ _ _ _ _ E Hs) as (Hj & _). subst j.
+        exists f. split; [reflexivity|exact Hs].
+    + pose proof (claim_reconcile_no_rmnode w f) as Hn. destruct (claim_reconcile w f) as [[es r] k]. simpl in *.
+      change (node_has_fin i (apply_effs w es) = false) in H'.
+      rewrite (apply_effs_node_fin i es w (no_rmnode_nfin_safe i es Hn) H) in H'. discriminate.
+Qed.
+
+Lemma apply_eff_claim_fin : forall e w, no_rm e = true -> claim_has_fin w = true -> claim_has_fin (apply_eff w e) = true.
+Proof.
+  intros e w Hs H. unfold claim_has_fin in *.
+  destruct e as [ok|a|j ok|a|ok d v t|j ok|ok t|j ok|ok|ok|ok|ok]; simpl in *;
+    try destruct ok; try destruct a; simpl in *; try discriminate; try exact H;
+    try (match goal with |- context[upd_node ?i ?g w] => destruct (upd_node_frame i g w) as (_&_&_&_&X&_); rewrite X; exact H end; fail);
+    unfold upd_claim, api_delete_claim; simpl; destruct (w_claim w) as [c|]; simpl in *; try discriminate; auto.
+  destruct (c_del c); simpl; [exact H|]. rewrite H. reflexivity.
+Qed.
+
+Lemma apply_effs_claim_fin : forall es w, forallb no_rm es = true -> claim_has_fin w = true ->
+  claim_has_fin (apply_effs w es) = true.
+Proof.
+  induction es as [|e es IH]; intros w Hs H; simpl in *; [exact H|].
+  apply andb_prop in Hs. destruct Hs as [H1 H2]. unfold apply_effs in *. simpl.
+  apply IH; [exact H2|]. apply apply_eff_claim_fin; assumption.
+Qed.
+
+Lemma plain_no_rm : forall es, forallb plain es = true -> forallb no_rm es = true.
+Proof.
+  induction es as [|e es IH]; simpl; auto. intros H. apply andb_prop in H. destruct H as [H1 H2].
+  rewrite (IH H2), andb_true_r. destruct e as [ok|a|j ok|a|ok d v t|j ok|ok t|j ok|ok|ok|ok|ok]; try destruct ok; simpl in *; auto.
+Qed.
+
+Lemma env_claim_fin : forall w o, is_env o = true -> claim_has_fin w = true -> claim_has_fin (env_step w o) = true.
+Proof.
+  intros w o He H. unfold claim_has_fin in *.
+  destruct o; simpl in He; try discriminate; simpl; try exact H;
+    try (match goal with |- context[upd_node ?i ?g w] => destruct (upd_node_frame i g w) as (_&_&_&_&X&_); rewrite X; exact H end; fail);
+    try (destruct (existsb _ (w_pods w)); exact H);
+    unfold upd_claim, api_delete_claim; simpl; destruct (w_claim w) as [c|]; simpl in *; try discriminate.
+  - destruct (c_del c); simpl; [exact H|]. rewrite H. reflexivity.
+  - destruct (c_pid c && _); simpl; exact H.
+Qed.
+
+(* Only a lifecycle reconcile that writes the removal takes the finalizer off the NodeClaim. *)
+Lemma claim_finalizer_only_by_reconcile_l : forall w o,
+  claim_has_fin w = true -> claim_has_fin (fst (step w o)) = false ->
+  exists f, o = RClaim f /\ In (ERmClaimFin true) (fst (snd (step w o))).
+Proof.
+  intros w o H H'. unfold step in *. destruct (is_env o) eqn:He.
+  - simpl in H'. rewrite (env_claim_fin w o He H) in H'. discriminate.
+  - destruct o as [j f|f| | | | | | | | | | | |]; simpl in He; try discriminate; simpl in *.
+    + pose proof (node_reconcile_plain w j f) as Hp. destruct (node_reconcile w j f) as [es r]. simpl in *.
+      change (claim_has_fin (apply_effs w es) = false) in H'.
+      rewrite (apply_effs_claim_fin es w (plain_no_rm _ Hp) H) in H'. discriminate.
+    + destruct (claim_reconcile w f) as [[es r] k]. simpl in *.
+      destruct (forallb no_rm es) eqn:Hs.
+      * change (claim_has_fin (apply_effs w es) = false) in H'.
+        rewrite (apply_effs_claim_fin es w Hs H) in H'. discriminate.
+      * exists f. split; [reflexivity|]. apply not_no_rm_in. exact Hs.
+Qed.
